@@ -61,7 +61,7 @@ class CG:
         return cbgen.lit_expr(v) if isinstance(v, int) else ["num", repr(v), v]
 
     def var(self):
-        return ["var", self.d(st.sampled_from(["A", "B", "C", "I", "J"]))]
+        return ["var", self.d(st.sampled_from(["A", "B", "C", "I", "J", "X"]))]
 
     def num(self, depth, inside=False):
         r = self.d(st.integers(0, 13))
@@ -100,7 +100,7 @@ class CG:
     def string(self, depth, inside=False, plain=False):
         r = self.d(st.integers(0, 11))
         if depth <= 0 or r < 2:
-            return ["svar", self.d(st.sampled_from(["S", "T"]))] if self.d(st.booleans()) else ["str", self.d(st.sampled_from(["AB", "B1", "12", "A", ""]))]
+            return ["svar", self.d(st.sampled_from(["S", "T", "U"]))] if self.d(st.booleans()) else ["str", self.d(st.sampled_from(["AB", "B1", "12", "A", ""]))]
         if inside:
             self.nested = True
         if r < 4 and not plain:
@@ -141,12 +141,29 @@ def cases(draw, switches):
         cg.excluded.hit("no_convertible_in_ifelse_cond")
         slot = "if"
     if slot == "assign":
-        body = [["let", ["var", "X"], cg.num(depth), False]]
+        if draw(st.integers(0, 3)) == 0:
+            cg.n += 1
+            body = [["let", ["var", "X"], ["fn", "INT", [["bin", "+", ["var", "X"], cg.num(depth - 1, True)]]], False]]  # X=INT(X+..): target among the arguments
+        else:
+            body = [["let", ["var", "X"], cg.num(depth), False]]
     elif slot == "assign_elem":
         cg.n += 1
         body = [["let", ["arr", "P", [cg.subscript(depth - 1)]], cg.num(depth), False]]
     elif slot == "sassign":
-        body = [["let", ["svar", "U"], cg.string(depth), False]]
+        tv = draw(st.sampled_from(["U", "U", "S"]))
+        if draw(st.integers(0, 2)) == 0:
+            # the target reappears inside the arguments of the function that is the whole right-hand side
+            cg.n += 1
+            f = draw(st.sampled_from(["STRING$", "STR$", "HEX$"]))
+            if f == "STRING$":
+                rhs = ["fn", "STRING$", [["num", "2", 2], ["scat", ["svar", tv], ["str", "*"]]]]
+            elif f == "STR$":
+                rhs = ["fn", "STR$", [["bin", "+", ["fn", "LEN", [["svar", tv]]], cg.num(depth - 1, True)]]]
+            else:
+                rhs = ["fn", "HEX$", [["bin", "+", ["fn", "LEN", [["svar", tv]]], ["num", "10", 10]]]]
+            body = [["let", ["svar", tv], rhs, False]]
+        else:
+            body = [["let", ["svar", tv], cg.string(depth), False]]
     elif slot == "if":
         body = [["if", ["cmp", draw(st.sampled_from(["=", "<", ">="])), cg.num(depth), cg.num(1)], ["stmts", [["let", ["var", "X"], ["bin", "+", ["var", "X"], ["num", "1", 1]], False]]], None]]
     elif slot == "if_body":
